@@ -7,7 +7,9 @@
           wres = (panicked ret err (#write ...) pkt_after crc_go)
           rres = (panicked errkind pkt consumed wanted maxcap)
    case (3 data (chunk ...))                                          length-prefixed helper
-        observed ((panicked ret err (#write ...)) (panicked errkind #data consumed wanted maxcap)) *)
+        observed ((panicked ret err (#write ...)) (panicked errkind #data consumed wanted maxcap))
+   case (4 ver nref bodylen seed thrArg)                              limit probe, sizes only
+        observed (panicked ret err nbytes nwrites decoded) *)
 From Coq Require Import Arith ZArith NArith List Bool.
 From FV Require Import Lib.Sx Lib.NList Lib.BE Lib.Crc32 C01.Model C01.RunLib.
 Import ListNotations.
@@ -232,10 +234,40 @@ Definition check_lendata (data chunks : sx) (obs : list sx) : verdict :=
   | _ => VBad
   end.
 
+(* ---------------------------------------------------------------------------------- *)
+(* limit probes: sizes only *)
+
+Definition check_limit (ver : Z) (nref bodylen : N) (thrArg : Z) (obs : list sx) : verdict :=
+  match obs with
+  | [SInt pn; SInt ret; SInt err; SInt nbytes; SInt nwrites; SInt decoded] =>
+      let thr := if Z.eqb ver 1 then thr_v1 thrArg else thr_v2 thrArg in
+      let exact := bodylen <=? thr in     (* nothing is compressed: the frame size is known *)
+      let failed := negb (Z.eqb err 0) in
+      let corr :=
+        if exact then
+          check_that (match limit_predict ver nref bodylen with
+                      | Some n => negb failed && Z.eqb ret (Z.of_N n) && Z.eqb nbytes (Z.of_N n)
+                                  && Z.eqb nwrites 2
+                      | None => failed && Z.eqb ret 0 && Z.eqb nwrites 0
+                      end) (VMismatch 1)
+        else VOk in
+      let prop :=
+        vall [ check_that (Z.eqb pn 0) (VPropFail 1);
+               check_that (failed || Z.eqb ret nbytes) (VPropFail 2);
+               check_that (negb failed || Z.eqb nbytes 0) (VPropFail 3);
+               check_that (failed || ((Z.to_N nbytes <=? ver_max ver)
+                                      && (Z.eqb ver 1 || (nref <=? 255)))) (VPropFail 10);
+               check_that (failed || Z.eqb decoded 1) (VPropFail 6) ] in
+      vjoin prop corr
+  | _ => VBad
+  end.
+
 Definition check (c : sx) : verdict :=
   match c with
   | SList [SList [SInt 1%Z; SInt ver; SInt thrArg; SInt cipher; SInt _; pkts; chunks]; SList obs] =>
       if Z.eqb ver 1 || Z.eqb ver 2 then check_stream ver thrArg cipher pkts chunks obs else VBad
   | SList [SList [SInt 3%Z; data; chunks]; SList obs] => check_lendata data chunks obs
+  | SList [SList [SInt 4%Z; SInt ver; SInt nref; SInt bodylen; SInt _; SInt thrArg]; SList obs] =>
+      if Z.eqb ver 1 || Z.eqb ver 2 then check_limit ver (Z.to_N nref) (Z.to_N bodylen) thrArg obs else VBad
   | _ => VBad
   end.
